@@ -210,6 +210,11 @@ func verifyFunction(w *World, fn *ssa.Function, spec *FuncSpec) (vc *VC) {
 					ctx.env["result"] = r
 				}
 			}
+			if len(spec.ReturnGhosts) > 0 {
+				ex.st = ex.st.clone()
+				ctx.st = ex.st
+				fr.applyGhosts(spec.ReturnGhosts, ctx, ex.st)
+			}
 			for _, en := range spec.Ensures {
 				g, err := ctx.evalBool(en.E)
 				if err != nil {
@@ -217,6 +222,9 @@ func verifyFunction(w *World, fn *ssa.Function, spec *FuncSpec) (vc *VC) {
 					continue
 				}
 				vc.oblige("ensures", fr.tagsFor(en.Tags), ex.reach, g, "postcondition: "+en.Text, ex.pos, en)
+			}
+			for _, ik := range spec.Implements {
+				fr.checkImplements(ik, ex)
 			}
 			for _, r := range ex.results {
 				if r.T != nil && vc.isPooledPtr(r.T) {
@@ -608,16 +616,19 @@ func (vc *VC) dropObligsFrom(n int) {
 // applyEntryGhosts performs the `ghost NAME = expr` updates of the contract at the start of the body
 // (after the entry state has been recorded, so that old(NAME) denotes the value before the update).
 func (fr *Frame) applyEntryGhosts(st *State) {
-	vc := fr.vc
 	if !fr.isTop || fr.spec == nil {
 		return
 	}
-	for _, ga := range fr.spec.EntryGhosts {
+	fr.applyGhosts(fr.spec.EntryGhosts, fr.specCtx(st, fr.entry, fr.fn.Blocks[0], 0), st)
+}
+
+func (fr *Frame) applyGhosts(gas []*GhostAssign, ctx *SpecCtx, st *State) {
+	vc := fr.vc
+	for _, ga := range gas {
 		ok := false
 		for _, g := range vc.db.Ghosts {
 			if g.Name == ga.Name {
 				vc.comp(g.Name, g.Sort)
-				ctx := fr.specCtx(st, fr.entry, fr.fn.Blocks[0], 0)
 				t, err := ctx.eval(ga.E)
 				if err != nil {
 					vc.unsupportedf("ghost %s: %v", ga.Text, err)
@@ -631,4 +642,95 @@ func (fr *Frame) applyEntryGhosts(st *State) {
 			vc.unsupportedf("ghost assignment to undeclared ghost %s", ga.Name)
 		}
 	}
+}
+
+// checkImplements: at a return exit, the post-conditions of the interface-method contract ikey must
+// hold (behavioural subtyping, post-condition half). Formals of the interface method are bound by
+// position; `this` is the receiver as an interface value. The pre-condition half is reported as an
+// assumption: what the implementation requires beyond the interface contract is an object invariant
+// established by its constructor.
+func (fr *Frame) checkImplements(ikey string, ex *Exit) {
+	vc := fr.vc
+	ispec := vc.lookupSpec(ikey)
+	if ispec == nil || !ispec.IsIface {
+		vc.unsupportedf("implements %s: no such interface contract", ikey)
+		return
+	}
+	i := strings.LastIndex(ikey, ".")
+	it := vc.lookupType("", ikey[:i])
+	if it == nil {
+		vc.unsupportedf("implements %s: unknown interface type", ikey)
+		return
+	}
+	iface, ok := it.Underlying().(*types.Interface)
+	if !ok {
+		vc.unsupportedf("implements %s: not an interface", ikey)
+		return
+	}
+	var msig *types.Signature
+	for k := 0; k < iface.NumMethods(); k++ {
+		if iface.Method(k).Name() == ikey[i+1:] {
+			msig = iface.Method(k).Type().(*types.Signature)
+		}
+	}
+	if msig == nil {
+		vc.unsupportedf("implements %s: no such method", ikey)
+		return
+	}
+	fn := fr.fn
+	if fn.Signature.Recv() == nil || len(fn.Params) != msig.Params().Len()+1 {
+		vc.unsupportedf("implements %s: %s is not a method with a matching signature", ikey, vc.name)
+		return
+	}
+	env := map[string]Term{}
+	recv := fr.val(fn.Params[0])
+	box, _ := vc.boxFns(fn.Params[0].Type())
+	env["this"] = Term{fmt.Sprintf("(%s %s)", box, recv.S), "Int", it}
+	for k := 0; k < msig.Params().Len(); k++ {
+		n := msig.Params().At(k).Name()
+		if n == "" || n == "_" {
+			n = fmt.Sprintf("arg%d", k)
+		}
+		if k < len(ispec.Params) {
+			n = ispec.Params[k]
+		}
+		t := fr.val(fn.Params[k+1])
+		t.T = msig.Params().At(k).Type()
+		env[n] = t
+	}
+	rn := resultNames(ispec, msig)
+	for k, r := range ex.results {
+		if k < len(rn) && rn[k] != "" && rn[k] != "_" {
+			env[rn[k]] = r
+		}
+		env[fmt.Sprintf("result%d", k)] = r
+		if k == 0 {
+			env["result"] = r
+		}
+	}
+	ctx := &SpecCtx{vc: vc, env: env, st: ex.st, old: fr.entry, pkg: ispec.Pkg}
+	for _, l := range ispec.Lets {
+		c0 := &SpecCtx{vc: vc, env: env, st: fr.entry, old: fr.entry, pkg: ispec.Pkg}
+		t, err := c0.eval(l.E)
+		if err != nil {
+			vc.unsupportedf("implements %s: let %s: %v", ikey, l.Text, err)
+			continue
+		}
+		env[l.Name] = t
+	}
+	for _, en := range ispec.Ensures {
+		g, err := ctx.evalBool(en.E)
+		if err != nil {
+			vc.unsupportedf("implements %s: ensures %q: %v", ikey, en.Text, err)
+			continue
+		}
+		tags := en.Tags
+		if len(tags) == 0 {
+			tags = fr.autoTags()
+		} else {
+			tags = intersectOrAll(tags, fr.autoTags())
+		}
+		vc.oblige("implements", tags, ex.reach, g, fmt.Sprintf("post-condition of %s: %s", ikey, en.Text), ex.pos, en)
+	}
+	vc.note("%s is checked against the post-conditions of %s; pre-conditions of the implementation beyond the interface contract are object invariants established by its constructor (not checked)", vc.name, ikey)
 }
